@@ -21,7 +21,7 @@ THEOREMS = ["C01_sem_binop_left_error", "C01_sem_binop_right_error", "C01_sem_bi
             "C01_statement_sem_vs_vm", "C01_body_expression_compiled", "C01_sem_body_expression",
             "C01_user_call_compiled", "C01_definition_compiled_and_run", "C01_definition_extends_the_table",
             "C01_sem_definition", "C01_sessions_with_definitions_partial", "C01_sem_counter_monotone",
-            "C01_sessions_sem_vs_vm_partial"]
+            "C01_sessions_sem_vs_vm_partial", "C01_meaning_is_stable_in_fuel", "C01_meaning_is_unique"]
 
 CORPUS = [
     # witnesses of defects repaired in /repo (they stay in the corpus)
